@@ -141,11 +141,13 @@ def d2_small_date(ctx):
         ctx.ok('D2', 'small_date uses NaiveDate::from_ymd_opt', 'shape', site=t['loc'])
     y, m, d = (b.expr(a) for a in t['args'])
     ys = sorted(set(render(a) for a, _ in alternatives(b, strip(y)[3] if strip(y)[0] == 'cast' else y)) | ({render(y)} if strip(y)[0] != 'phi' else set()))
-    yr = render(y)
-    if re.search(r'tools::get_number\("year", fields\)', yr) and re.search(r'year\(.*Utc::now\(\)', yr):
-        ctx.ok('D2', 'year = field "year" or the current year', 'wiring', site=t['loc'])
+    yalts = sorted(set(render(a) for a, _ in alternatives(b, y)))
+    want_y = [r'\(tools::get_number\("year", fields\) as Some\.0 as i32\)', r'year\((DateTime::date|DateTime::date_naive|Date::naive_utc)\(Utc::(now|today)\(\)\)\)|year\(Utc::today\(\)\)']
+    unknown = [a for a in yalts if not any(re.fullmatch(w, a) for w in want_y)]
+    if not unknown and len(yalts) == 2:
+        ctx.ok('D2', 'year = the field "year" as written, or the current year', 'wiring', site=t['loc'])
     else:
-        ctx.finding('D2', 'small_date/year', 'the year of a date is %s; expected the field "year", defaulting to the current year' % yr[:120], site=t['loc'])
+        ctx.finding('D2', 'small_date/year', 'the year of a date is %s; expected the field "year" exactly as written (a printed year must read back as itself) or, without it, the current year' % (unknown or yalts)[0][:120], site=t['loc'])
     mr = render(m)
     if re.fullmatch(r'tools::get_number_or_month\("month", fields\) as Some\.0', mr):
         ctx.ok('D2', 'month = field "month"', 'wiring', site=t['loc'])
